@@ -562,6 +562,27 @@ pub fn f5() -> Fragment {
         fun("g", &["y", "x"], app("f", vec![var("x"), var("y")])),
         get(content(app("g", vec![num(), str_()]))),
     ]);
+    // a later argument named like an earlier parameter of the callee (arguments are
+    // evaluated in the caller's scope)
+    for (p1, p2) in [("x", "y"), ("y", "x")] {
+        for (a1, a2) in [("x", "y"), ("y", "x"), ("x", "x"), ("y", "y")] {
+            all_orders(vec![
+                fun("pair", &["x", "y"], obj(vec![prop("l", var("x")), prop("r", var("y"))])),
+                fun("flip", &[p1, p2], app("pair", vec![var(a1), var(a2)])),
+                get(content(app("flip", vec![num(), str_()]))),
+            ]);
+        }
+    }
+    all_orders(vec![
+        fun("g", &["x", "y"], E::Content(vec![(Meta::Status, var("y"))], Some(Box::new(var("x"))))),
+        fun("f", &["x"], app("g", vec![obj(vec![]), var("x")])),
+        get(app("f", vec![status(200)])),
+    ]);
+    all_orders(vec![
+        fun("three", &["a", "b", "c"], obj(vec![prop("a", var("a")), prop("b", var("b")), prop("c", var("c"))])),
+        fun("rot", &["c", "a", "b"], app("three", vec![var("b"), var("c"), var("a")])),
+        get(content(app("rot", vec![num(), str_(), E::Prim(Prim::Bool)]))),
+    ]);
     // functions returning contents, transfers, relations, uris
     all_orders(vec![
         fun("ok", &["s"], E::Content(vec![(Meta::Status, status(200))], Some(Box::new(var("s"))))),
@@ -1047,6 +1068,28 @@ pub fn f9() -> Fragment {
     programs.push(single(vec![
         fun("f", &["x"], obj(vec![prop("k", ann(var("x"), "description: at use"))])),
         get(content(app("f", vec![ann(num(), "description: at arg, title: targ")]))),
+    ]));
+    // the same key at a declaration and at its use: the use site wins (scalars), sequences
+    // are concatenated declaration first, maps merge
+    programs.push(single(vec![
+        let_ann("v", "description: at decl, title: T", num()),
+        get(content(obj(vec![prop("k", ann(var("v"), "description: at use"))]))),
+    ]));
+    programs.push(single(vec![
+        Stmt::Let { anns: vec!["description: generic, title: G".into()], name: "f".into(), params: vec!["x".into()], body: obj(vec![prop("k", var("x"))]) },
+        get(content(obj(vec![prop("j", ann(E::Paren(Box::new(app("f", vec![num()]))), "description: specific"))]))),
+        let_ann("@e", "description: specific component", app("f", vec![str_()])),
+        get_at("b", content(var("@e"))),
+    ]));
+    programs.push(single(vec![
+        Stmt::Let { anns: vec!["tags: [generic], summary: sg".into()], name: "rd".into(), params: vec!["s".into()], body: xfer(Method::Get, content(var("s"))) },
+        let_ann("x", "tags: [specific], summary: ss", app("rd", vec![num()])),
+        Stmt::Res(rel(uri_lit(&["a"]), vec![var("x")])),
+        Stmt::Res(rel(uri_lit(&["b"]), vec![ann(E::Paren(Box::new(app("rd", vec![str_()]))), "tags: [inline]")])),
+    ]));
+    programs.push(single(vec![
+        let_ann("c", "examples: {a: u1, b: u2}, description: dc", content(num())),
+        get(ann(var("c"), "examples: {b: u3, c: u4}, description: du")),
     ]));
     // tags merge by concatenation, maps deep-merge
     programs.push(single(vec![
